@@ -1142,7 +1142,7 @@ def extract_backend_write(repo, parents):
 def extract_life(repo, parents):
     import lifetrans
     try:
-        return lifetrans.translate(lambda rel: _parse(repo, rel))
+        return lifetrans.translate(lambda rel: _parse(repo, rel)) + [""] + lifetrans.translate_wrappers(lambda rel: _parse(repo, rel))
     except lifetrans.ExtractError as e:
         raise ExtractError(str(e))
 
